@@ -3,8 +3,9 @@
 
    Every event carries an observation made by the harness from OUTSIDE the
    connector (no private attribute is consulted for the property clauses):
-     st[t]    status of caller t:  new | spawned | waiting | creating | holding |
-              done | failed | cancelled
+     st[t]    status of caller t:  new | spawned | waiting | creating | reusing | holding |
+              done | failed | cancelled   (reusing = took an idle connection, still inside
+              the reuseconn trace callback)
               (waiting = connect() started, still pending, and not inside
                _create_connection; creating = inside _create_connection)
      key[t]   endpoint of caller t
@@ -27,7 +28,7 @@ VARIABLES tid, l, prev, bad
 tvars == <<tid, l, prev, bad>>
 
 Names(o) == DOMAIN o.st
-InUse(o) == {t \in Names(o) : o.st[t] \in {"creating", "holding"}}
+InUse(o) == {t \in Names(o) : o.st[t] \in {"creating", "holding", "reusing"}}
 InUseK(o, k) == {t \in InUse(o) : o.key[t] = k}
 KeysOf(o) == {o.key[t] : t \in Names(o)}
 
@@ -41,13 +42,15 @@ Legal == {<<"new", "spawned">>, <<"spawned", "waiting">>, <<"spawned", "creating
           <<"spawned", "holding">>, <<"spawned", "cancelled">>, <<"spawned", "failed">>,
           <<"waiting", "creating">>, <<"waiting", "holding">>, <<"waiting", "cancelled">>,
           <<"waiting", "failed">>, <<"creating", "holding">>, <<"creating", "failed">>,
-          <<"creating", "cancelled">>, <<"holding", "done">>}
+          <<"creating", "cancelled">>, <<"holding", "done">>,
+          <<"spawned", "reusing">>, <<"waiting", "reusing">>, <<"reusing", "holding">>,
+          <<"reusing", "cancelled">>, <<"reusing", "failed">>}
 
 Clause(p, e, c) ==
     LET o == e.obs
         \* the step that took the count over the limit was connect()'s fast path: a caller
         \* went straight from "spawned" to "holding" by reusing an idle pooled connection
-        reuse == \E t \in Names(o) : p.st[t] = "spawned" /\ o.st[t] = "holding"
+        reuse == \E t \in Names(o) : p.st[t] = "spawned" /\ o.st[t] \in {"holding", "reusing"}
         pOver == c.L > 0 /\ Cardinality(InUse(p)) > c.L
         pOverK == c.Lh > 0 /\ \E k \in KeysOf(p) : Cardinality(InUseK(p, k)) > c.Lh
     IN
